@@ -16,7 +16,7 @@ RULE = ("program-level: for force fields with no / every single link template (t
         "position restraints) in all pairs of sections x chains of 1-3. non-trivial = molecule with >=1 inter-residue interaction and >=1 guarded interaction or >=2 residues")
 ASSUMPTIONS = ["dependency versions: the ones installed here (vermouth 0.15.0, networkx 3.6.1), both inside the declared ranges",
                "meta keys the .itp format cannot express (version, group, edge) are not compared"]
-BUDGET = {"quick": 420, "thorough": 2400}
+BUDGET = {"quick": 420, "thorough": 4000}
 
 SYMMETRIC = {"bonds", "angles", "dihedrals", "constraints", "pairs", "exclusions", "impropers"}
 
